@@ -37,6 +37,12 @@ fn check(s: &str, n: &mut u64) {
         }
     }
     *n += 3;
+    // str::find / str::contains models: every corpus string as haystack against a menu of needles
+    for needle in ["", ".", "_", "a", "ab", "_r", ".restart-", "b.", "..", "a/b", "aaaaaaaa"] {
+        assert_eq!(stdmodels::strm::find(s.as_bytes(), needle.as_bytes()), s.find(needle), "find {s:?} {needle:?}");
+        *n += 1;
+    }
+    assert_eq!(stdmodels::strm::is_ascii(s.as_bytes()), s.is_ascii(), "is_ascii {s:?}");
 }
 fn main() {
     let alpha = [b'a', b'b', b'.', b'/', b'_'];
